@@ -173,25 +173,33 @@ func inconsistentDeviationSets() []Set {
 func scaleSets(tier string) []Set {
 	var out []Set
 	add := func(desc string, fs ...dump.File) { out = append(out, Set{"scale", desc, fs}) }
-	deepMax, wideMax := 40, 257
+	deepMax, wideUp, wideMax := 40, 20, 65
 	if tier == "thorough" {
-		deepMax, wideMax = 70, 1025
+		deepMax, wideUp, wideMax = 70, 36, 257
 	}
 	for _, n := range scale.Sizes(deepMax, deepMax) {
 		user := `module u { yang-version 1.1; namespace "urn:u"; prefix u; import b { prefix b; } augment ` + scale.DeepPath("b", n) + ` { leaf grafted { type string; } container gc { leaf gl { type int8; } } } deviation ` + scale.DeepPath("b", n) + `/b:x { deviate replace { default changed; } } deviation ` + scale.DeepPath("b", n) + `/b:li { deviate replace { max-elements 3; } } }`
 		add(fmt.Sprintf("scale deep n=%d", n), scale.Deep(n), dump.File{Name: "u.yang", Text: user})
 	}
-	for _, n := range scale.Sizes(36, wideMax) {
+	for _, n := range scale.Sizes(wideUp, wideMax) {
 		add(fmt.Sprintf("scale wide n=%d", n), scale.Wide(n)...)
 	}
-	for _, n := range scale.Sizes(40, 129) {
+	chainUp, chainMax := 20, 65
+	if tier == "thorough" {
+		chainUp, chainMax = 40, 129
+	}
+	for _, n := range scale.Sizes(chainUp, chainMax) {
 		f, _ := scale.TypedefChain(n, 0, false)
 		add(fmt.Sprintf("scale typedef-chain n=%d", n), f)
 		add(fmt.Sprintf("scale identity-chain n=%d", n), scale.IdentityChain(n, false))
 		add(fmt.Sprintf("scale identity-fan n=%d", n), scale.IdentityFan(n))
 		add(fmt.Sprintf("scale grouping-chain n=%d", n), scale.GroupingChain(n, false))
 	}
-	for _, n := range scale.Sizes(20, 65) {
+	impUp, impMax := 10, 17
+	if tier == "thorough" {
+		impUp, impMax = 20, 65
+	}
+	for _, n := range scale.Sizes(impUp, impMax) {
 		add(fmt.Sprintf("scale imports n=%d", n), scale.Imports(n)...)
 		add(fmt.Sprintf("scale includes n=%d", n), scale.Includes(n, false)...)
 		add(fmt.Sprintf("scale includes-nested n=%d", n), scale.Includes(n, true)...)
